@@ -169,7 +169,8 @@ func (a *dataSetAof) Close() {
 	}
 	a.mux.Lock()
 	writer := a.writer
-	readers := a.readers
+	// a private copy : every Close comes back to DelReader, which edits a.readers in place
+	readers := append([]*AofRotateReader(nil), a.readers...)
 	a.mux.Unlock()
 	if writer != nil {
 		writer.Close()
